@@ -17,11 +17,27 @@ small real md-grids, quantity dimension 1, 2, 3:
     for vectors) at the face offsets of S, rows stacked in list order (0-d grids contribute no rows);
     boundary_to_subdomain is its transpose and subdomain_to_boundary @ boundary_to_subdomain = identity.
 
-All expected matrices are built as dense numpy arrays from integer offset arithmetic (and, for the mortar blocks, from
+All expected matrices are built in triplet form from integer offset arithmetic (and, for the mortar blocks, from
 the per-interface projections, as the statement says).
 
-Detection power (scratch copy of /repo/src, POREPY_SRC=<copy>, quick tier; each run exited 1 with VIOLATION):
-  (filled in after the mutation runs)
+Detection power (scratch copy of /repo/src with the candidate defect below repaired so that the baseline exits 0,
+POREPY_SRC=<copy>, quick tier; every mutant run exited 1 with VIOLATION lines):
+  M1 grid_operators._cell_projections: ``cell_offset = cell_ind[-1] + 1`` -> ``cell_offset += sd.num_cells`` (dim factor lost)
+       caught by "SubdomainProjections.cell_prolongation/cell_restriction: identity blocks at offsets sum n_j*dim" (dim 2, 3), mortar clauses
+  M2 grid_operators._face_projections: offset advanced for ``sd.dim > 1`` only
+       caught by "SubdomainProjections.face_prolongation/face_restriction: identity blocks at offsets sum n_j*dim"
+  M3 MortarProjections.mortar_to_secondary_avg builds the *_int projection
+       caught by "MortarProjections.mortar_to_secondary_avg: per-interface blocks at global offsets" (md-grid B, non-matching)
+  M4 boundary_grid.set_projections: boundary faces taken in descending order
+       caught by "BoundaryGrid.projection: selects the domain-boundary faces in order", "BoundaryProjection.subdomain_to_boundary: ..."
+  M5 SubdomainProjections.cell_prolongation: blocks emitted in constructor order instead of argument order
+       caught by "SubdomainProjections.cell_prolongation: identity blocks at offsets sum n_j*dim", "cell restriction @ prolongation = identity"
+
+Candidate defect of the unchanged tree found by this check (kept strict; reported to the lead):
+  MortarProjections._construct_projection sizes the zero block of an interface whose primary subdomain is not in the
+  subdomain list with the number of FACES of the listed subdomains even for co-dimension-2 interfaces, whose primary
+  projections act on CELLS: the primary projections then have inconsistent shapes (e.g. (0, m) for a list holding only
+  the 0-d grid, where the cell-based size is (dim*1, m)).  signature "codim [2]; primary subdomains listed: none".
 """
 from __future__ import annotations
 
@@ -29,7 +45,7 @@ META = {
     "level": "exploration",
     "engine": "sweep",
     "technique": "run-time contract sweep (bounded stand-in for deduction): every projection matrix of the AD grid operators compared with an "
-                 "independently assembled dense 0/1 (or per-interface block) matrix for all orderings and subsets of the grid lists of four small "
+                 "independently assembled 0/1 (or per-interface block) matrix for all orderings and subsets of the grid lists of four small "
                  "real md-grids, quantity dimension 1-3",
     "text": "Bounded (tier B): four small md-grids (2-D X-intersection with 0-d point; 2-D single fracture with a refined, non-matching 1-d grid; "
             "3-D with two intersecting fractures; 2-D with two co-dimension-2 point couplings), quantity dimension 1, 2, 3. SubdomainProjections: "
@@ -99,88 +115,148 @@ def build_mdgs(pp, np):
 
 
 # ----------------------------------------------------------------------------- expected matrices (oracle)
+# Matrices are compared in canonical triplet form (shape, sorted (row, col) of the non-zero entries, values).
 
 
 def offsets(sizes, dim):
     off, acc = [], 0
     for n in sizes:
         off.append(acc)
-        acc += n * dim
+        acc += int(n) * dim
     return off, acc
 
 
+def canon(np, M):
+    """Canonical triplets of a scipy sparse matrix (duplicates summed, explicit zeros dropped)."""
+    M = M.tocoo()
+    if M.nnz == 0:
+        return M.shape, np.zeros(0, dtype=np.int64), np.zeros(0, dtype=np.int64), np.zeros(0)
+    key = M.row.astype(np.int64) * max(M.shape[1], 1) + M.col.astype(np.int64)
+    uk, inv = np.unique(key, return_inverse=True)
+    val = np.zeros(uk.size)
+    np.add.at(val, inv, M.data.astype(float))
+    keep = val != 0
+    uk, val = uk[keep], val[keep]
+    return M.shape, uk // max(M.shape[1], 1), uk % max(M.shape[1], 1), val
+
+
+def canon_triplets(np, shape, rows, cols, vals):
+    rows, cols, vals = np.asarray(rows, dtype=np.int64), np.asarray(cols, dtype=np.int64), np.asarray(vals, dtype=float)
+    if rows.size == 0:
+        return shape, rows, cols, vals
+    key = rows * max(shape[1], 1) + cols
+    uk, inv = np.unique(key, return_inverse=True)
+    val = np.zeros(uk.size)
+    np.add.at(val, inv, vals)
+    keep = val != 0
+    uk, val = uk[keep], val[keep]
+    return shape, uk // max(shape[1], 1), uk % max(shape[1], 1), val
+
+
+def same(np, a, b, tol=0.0):
+    return a[0] == b[0] and a[1].size == b[1].size and bool(np.array_equal(a[1], b[1])) and bool(np.array_equal(a[2], b[2])) and \
+        (bool(np.array_equal(a[3], b[3])) if tol == 0.0 else bool(np.all(np.abs(a[3] - b[3]) <= tol)))
+
+
+def transposed(np, c):
+    shape, r, col, v = c
+    return canon_triplets(np, (shape[1], shape[0]), col, r, v)
+
+
 def expected_prolongation(np, sizes_C, A, dim):
-    """Dense (N x n_A) matrix: identity blocks of the grids A (indices into C) at the offsets of C."""
+    """(N x n_A) 0/1 matrix: identity blocks of the grids A (positions in C) at the offsets of C, columns in the order of A."""
     offC, N = offsets(sizes_C, dim)
     offA, nA = offsets([sizes_C[a] for a in A], dim)
-    E = np.zeros((N, nA))
+    rows, cols = [], []
     for s, a in enumerate(A):
-        for i in range(sizes_C[a] * dim):
-            E[offC[a] + i, offA[s] + i] = 1.0
-    return E
+        k = np.arange(sizes_C[a] * dim, dtype=np.int64)
+        rows.append(offC[a] + k)
+        cols.append(offA[s] + k)
+    rows = np.concatenate(rows) if rows else np.zeros(0, dtype=np.int64)
+    cols = np.concatenate(cols) if cols else np.zeros(0, dtype=np.int64)
+    return canon_triplets(np, (N, nA), rows, cols, np.ones(rows.size))
 
 
 def lists_class(n_all, C, A=None):
-    c = "full, md-grid order" if list(C) == list(range(n_all)) else ("full, permuted" if len(C) == n_all else ("empty" if len(C) == 0 else "subset"))
+    c = "full sorted" if list(C) == list(range(n_all)) else ("full permuted" if len(C) == n_all else ("empty" if len(C) == 0 else "subset"))
     if A is None:
         return c
     if len(A) == 0:
         a = "empty"
     elif list(A) == list(C):
-        a = "all, constructor order"
+        a = "all same order"
     elif len(A) == len(C):
-        a = "all, permuted"
+        a = "all permuted"
     else:
         a = "subset"
-    return f"constructor list {c}; argument {a}"
+    return f"ctor {c}; arg {a}"
 
 
 # ----------------------------------------------------------------------------- checks
 
 
-def check_subdomain_projections(pp, np, mdg, subs, C, dim, sw, rep, name):
+def check_subdomain_projections(pp, np, mdg, subs, C, dim, sw, rep, name, quick=False):
+    import scipy.sparse as sps
+
     grids = [subs[i] for i in C]
     try:
         proj = pp.ad.SubdomainProjections(grids, dim)
     except Exception as e:  # noqa: BLE001
-        rep.violation("SubdomainProjections: constructed for any list of distinct subdomains", f"dim {dim}; constructor list {lists_class(len(subs), C)}",
-                      inputs={"mdg": name, "dim": dim, "constructor": list(C)}, detail=f"{type(e).__name__}: {e}", confirmed=True)
+        rep.violation("SubdomainProjections: constructed for any list of distinct subdomains", f"dim {dim}; ctor {lists_class(len(subs), C)}",
+                      inputs={"mdg": name, "dim": dim, "constructor": list(C), "operator": "SubdomainProjections"}, detail=f"{type(e).__name__}: {e}", confirmed=True)
         return
     sizes = {"cell": [g.num_cells for g in grids], "face": [g.num_faces for g in grids]}
     for Apos in ordered_subsets(list(range(len(C)))):
+        if quick and len(C) >= 4 and len(Apos) == 3:
+            continue  # quick tier: for 4-grid constructor lists the 3-element arguments are left to the thorough tier
         A = [grids[i] for i in Apos]
-        mats = {}
         sig = f"dim {dim}; {lists_class(len(subs), C, [C[i] for i in Apos])}"
         inputs = {"mdg": name, "dim": dim, "constructor": list(C), "argument": [C[i] for i in Apos], "operator": "SubdomainProjections"}
         for kind in ("cell", "face"):
             E = expected_prolongation(np, sizes[kind], list(Apos), dim)
-            for meth, exp in ((f"{kind}_prolongation", E), (f"{kind}_restriction", E.T)):
+            mats = {}
+            for meth, exp in ((f"{kind}_prolongation", E), (f"{kind}_restriction", transposed(np, E))):
                 sw.case(key=(name, dim, tuple(C), tuple(Apos), meth), nontrivial=len(Apos) > 0, sample=dict(inputs, method=meth) if len(C) == 3 and len(Apos) == 2 else None)
                 try:
                     M = getattr(proj, meth)(list(A)).parse(mdg)
-                    Md = M.toarray()
+                    got = canon(np, M)
                 except Exception as e:  # noqa: BLE001
-                    rep.violation(f"SubdomainProjections.{meth}: defined for any ordered subset of the constructor list", sig, inputs=dict(inputs, method=meth),
+                    rep.violation(f"SubdomainProjections.{meth}: defined for any ordered subset", sig, inputs=dict(inputs, method=meth),
                                   detail=f"{type(e).__name__}: {e}", confirmed=True)
                     continue
-                mats[meth] = Md
-                if Md.shape != exp.shape or not np.array_equal(Md, exp):
-                    rep.violation(f"SubdomainProjections.{meth}: identity blocks in list order at offsets sum n_j*dim", sig, inputs=dict(inputs, method=meth),
-                                  detail=f"shape {Md.shape} expected {exp.shape}; differing entries {int(np.sum(Md != exp)) if Md.shape == exp.shape else 'n/a'}", confirmed=True)
-            if f"{kind}_prolongation" in mats and f"{kind}_restriction" in mats:
+                mats[meth] = M
+                if not same(np, got, exp):
+                    rep.violation(f"SubdomainProjections.{meth}: identity blocks at offsets sum n_j*dim", sig, inputs=dict(inputs, method=meth),
+                                  detail=f"shape {got[0]} expected {exp[0]}; non-zeros {got[1].size} expected {exp[1].size}", confirmed=True)
+            if len(mats) == 2:
                 R, P = mats[f"{kind}_restriction"], mats[f"{kind}_prolongation"]
                 if R.shape[1] == P.shape[0]:
-                    RP = R @ P
-                    if not np.array_equal(RP, np.eye(RP.shape[0])):
+                    RP = canon(np, sps.csr_matrix(R) @ sps.csc_matrix(P))
+                    n = R.shape[0]
+                    if not same(np, RP, canon_triplets(np, (n, n), np.arange(n), np.arange(n), np.ones(n))):
                         rep.violation(f"SubdomainProjections: {kind} restriction @ prolongation = identity", sig, inputs=inputs, detail="product differs from the identity", confirmed=True)
-                    if len(Apos) == len(C) and P.shape[0] == P.shape[1]:
-                        ok = np.all((P == 0) | (P == 1)) and np.all(P.sum(axis=0) == 1) and np.all(P.sum(axis=1) == 1)
+                    if len(Apos) == len(C):
+                        c = canon(np, P)
+                        ok = P.shape[0] == P.shape[1] and c[1].size == P.shape[0] and bool(np.all(c[3] == 1)) and \
+                            np.unique(c[1]).size == P.shape[0] and np.unique(c[2]).size == P.shape[0]
                         if not ok:
-                            rep.violation(f"SubdomainProjections: {kind} prolongations of all listed grids form a permutation matrix", sig, inputs=inputs, detail="not a permutation matrix", confirmed=True)
+                            rep.violation(f"SubdomainProjections: all {kind} prolongations form a permutation", sig, inputs=inputs, detail="not a permutation matrix", confirmed=True)
 
 
-def mortar_expected(np, mdg, S, J, dim, name):
-    """Per-interface blocks at the global offsets (independent assembly)."""
+_BLOCKS = {}
+
+
+def _block(intf, name, dim):
+    """Per-interface projection intf.<name>(dim) in triplet form (cached: the interfaces are not modified during the sweep)."""
+    key = (id(intf), name, dim)
+    if key not in _BLOCKS:
+        B = getattr(intf, name)(dim).tocoo()
+        _BLOCKS[key] = (B.shape, B.row.copy(), B.col.copy(), B.data.astype(float))
+    return _BLOCKS[key]
+
+
+def mortar_expected(np, mdg, S, J, dim, name, pairs):
+    """Per-interface blocks at the global offsets (independent assembly in triplet form)."""
     codims = {i.codim for i in J}
     to_mortar = name.split("_to_")[1].startswith("mortar")
     primary = "primary" in name
@@ -188,84 +264,104 @@ def mortar_expected(np, mdg, S, J, dim, name):
     sizes_S = [(g.num_faces if use_faces else g.num_cells) for g in S]
     offS, nS = offsets(sizes_S, dim)
     offJ, nJ = offsets([i.num_cells for i in J], dim)
-    E = np.zeros((nJ, nS) if to_mortar else (nS, nJ))
+    rows, cols, vals = [], [], []
     for k, intf in enumerate(J):
-        hi, lo = mdg.interface_to_subdomain_pair(intf)
+        hi, lo = pairs[id(intf)]
         g = hi if primary else lo
         pos = [n for n, s in enumerate(S) if s is g]
         if not pos:
             continue
-        B = getattr(intf, name)(dim).toarray()
+        _, brow, bcol, bdata = _block(intf, name, dim)
         r0, c0 = (offJ[k], offS[pos[0]]) if to_mortar else (offS[pos[0]], offJ[k])
-        E[r0:r0 + B.shape[0], c0:c0 + B.shape[1]] += B
-    return E
+        rows.append(brow.astype(np.int64) + r0)
+        cols.append(bcol.astype(np.int64) + c0)
+        vals.append(bdata)
+    z = np.zeros(0, dtype=np.int64)
+    return canon_triplets(np, (nJ, nS) if to_mortar else (nS, nJ), np.concatenate(rows) if rows else z, np.concatenate(cols) if cols else z,
+                          np.concatenate(vals) if vals else np.zeros(0))
 
 
 def check_mortar_projections(pp, np, mdg, subs, intfs, Sidx, Jidx, dim, sw, rep, name):
     S, J = [subs[i] for i in Sidx], [intfs[i] for i in Jidx]
-    sig = f"dim {dim}; subdomains {lists_class(len(subs), Sidx)}; interfaces {lists_class(len(intfs), Jidx)}"
+    codim = sorted({i.codim for i in J})
+    pairs = {id(i): tuple(mdg.interface_to_subdomain_pair(i)) for i in J}
+
+    def listed(which):
+        gs = [pairs[id(i)][0 if which == "primary" else 1] for i in J]
+        n = sum(1 for g in gs if any(g is s for s in S))
+        return "no interface" if not gs else ("all" if n == len(gs) else ("none" if n == 0 else "some"))
+
     inputs = {"mdg": name, "dim": dim, "subdomains": list(Sidx), "interfaces": list(Jidx), "operator": "MortarProjections"}
+    order = f"dim {dim}; subdomains {lists_class(len(subs), Sidx)}; interfaces {lists_class(len(intfs), Jidx)}"
     try:
         proj = pp.ad.MortarProjections(mdg, S, J, dim)
     except Exception as e:  # noqa: BLE001
-        rep.violation("MortarProjections: constructed for any subdomain / interface lists", sig, inputs=inputs, detail=f"{type(e).__name__}: {e}", confirmed=True)
+        rep.violation("MortarProjections: constructed for any subdomain / interface lists", f"co-dimension {codim}", inputs=inputs, detail=f"{order}: {type(e).__name__}: {e}", confirmed=True)
         return
     for nm in MORTAR_NAMES:
+        which = "primary" if "primary" in nm else "secondary"
+        sig = f"codim {codim}; {which} subdomains listed: {listed(which)}"
         sw.case(key=(name, dim, tuple(Sidx), tuple(Jidx), nm), nontrivial=len(S) > 0 and len(J) > 0, sample=dict(inputs, method=nm) if len(Sidx) == 2 and len(Jidx) == 2 else None)
         try:
-            Md = getattr(proj, nm)().parse(mdg).toarray()
+            got = canon(np, getattr(proj, nm)().parse(mdg))
         except Exception as e:  # noqa: BLE001
-            rep.violation(f"MortarProjections.{nm}: defined for any lists of one co-dimension", sig, inputs=dict(inputs, method=nm), detail=f"{type(e).__name__}: {e}", confirmed=True)
+            rep.violation(f"MortarProjections.{nm}: defined for any lists of one co-dimension", sig, inputs=dict(inputs, method=nm), detail=f"{order}: {type(e).__name__}: {e}", confirmed=True)
             continue
-        E = mortar_expected(np, mdg, S, J, dim, nm)
-        if Md.shape != E.shape or float(np.max(np.abs(Md - E), initial=0.0)) > 1e-12:
-            rep.violation(f"MortarProjections.{nm}: per-interface blocks at the global offsets", sig, inputs=dict(inputs, method=nm),
-                          detail=f"shape {Md.shape} expected {E.shape}; max difference {float(np.max(np.abs(Md - E), initial=0.0)) if Md.shape == E.shape else 'n/a'}", confirmed=True)
+        E = mortar_expected(np, mdg, S, J, dim, nm, pairs)
+        if not same(np, got, E, 1e-12):
+            rep.violation(f"MortarProjections.{nm}: per-interface blocks at global offsets", sig, inputs=dict(inputs, method=nm),
+                          detail=f"{order}: shape {got[0]} expected {E[0]}; non-zeros {got[1].size} expected {E[1].size}", confirmed=True)
 
 
 def boundary_block(np, g, dim):
-    """Selection of the domain-boundary faces of g in ascending order, component-wise (independent of BoundaryGrid)."""
-    faces = np.where(g.tags["domain_boundary_faces"])[0]
-    B = np.zeros((faces.size * dim, g.num_faces * dim))
-    for r, f in enumerate(faces):
-        for d in range(dim):
-            B[r * dim + d, f * dim + d] = 1.0
-    return B
+    """Selection of the domain-boundary faces of g in ascending order, component-wise (independent of BoundaryGrid): (shape, rows, cols)."""
+    faces = np.where(g.tags["domain_boundary_faces"])[0].astype(np.int64)
+    r = np.arange(faces.size, dtype=np.int64)
+    rows = (r[:, None] * dim + np.arange(dim)[None, :]).ravel()
+    cols = (faces[:, None] * dim + np.arange(dim)[None, :]).ravel()
+    return (faces.size * dim, g.num_faces * dim), rows, cols
 
 
 def check_boundary_projection(pp, np, mdg, subs, Sidx, dim, sw, rep, name):
+    import scipy.sparse as sps
+
     S = [subs[i] for i in Sidx]
     sig = f"dim {dim}; subdomains {lists_class(len(subs), Sidx)}" + ("; contains a 0-d grid" if any(g.dim == 0 for g in S) else "")
     inputs = {"mdg": name, "dim": dim, "subdomains": list(Sidx), "operator": "BoundaryProjection"}
     sw.case(key=(name, dim, tuple(Sidx), "boundary"), nontrivial=len(S) > 0, sample=inputs if len(Sidx) == 2 else None)
     try:
         proj = pp.ad.BoundaryProjection(mdg, S, dim)
-        s2b = proj.subdomain_to_boundary.parse(mdg).toarray()
-        b2s = proj.boundary_to_subdomain.parse(mdg).toarray()
+        s2b_m = proj.subdomain_to_boundary.parse(mdg)
+        b2s_m = proj.boundary_to_subdomain.parse(mdg)
+        s2b, b2s = canon(np, s2b_m), canon(np, b2s_m)
     except Exception as e:  # noqa: BLE001
         rep.violation("BoundaryProjection: defined for any list of subdomains", sig, inputs=inputs, detail=f"{type(e).__name__}: {e}", confirmed=True)
         return
     offF, nF = offsets([g.num_faces for g in S], dim)
-    blocks = [boundary_block(np, g, dim) if g.dim > 0 else np.zeros((0, 0)) for g in S]
-    nB = sum(b.shape[0] for b in blocks)
-    E = np.zeros((nB, nF))
-    r0 = 0
-    for k, b in enumerate(blocks):
-        E[r0:r0 + b.shape[0], offF[k]:offF[k] + b.shape[1]] = b
-        r0 += b.shape[0]
-    for g in S:
-        if g.dim > 0:
-            bg = mdg.subdomain_to_boundary_grid(g)
-            if not np.array_equal(bg.projection(dim).toarray(), boundary_block(np, g, dim)):
-                rep.violation("BoundaryGrid.projection: selects the domain-boundary faces in ascending order, per component", f"dim {dim}; {g.dim}-d grid", inputs=inputs,
-                              detail="per-grid projection differs from the tag-based selection", confirmed=True)
-    if s2b.shape != E.shape or not np.array_equal(s2b, E):
-        rep.violation("BoundaryProjection.subdomain_to_boundary: per-grid blocks at the face offsets, rows in list order", sig, inputs=inputs,
-                      detail=f"shape {s2b.shape} expected {E.shape}", confirmed=True)
-    if b2s.shape != E.T.shape or not np.array_equal(b2s, E.T):
-        rep.violation("BoundaryProjection.boundary_to_subdomain: transpose of subdomain_to_boundary", sig, inputs=inputs, detail=f"shape {b2s.shape} expected {E.T.shape}", confirmed=True)
-    if s2b.shape[1] == b2s.shape[0] and not np.array_equal(s2b @ b2s, np.eye(s2b.shape[0])):
-        rep.violation("BoundaryProjection: subdomain_to_boundary @ boundary_to_subdomain = identity", sig, inputs=inputs, detail="product differs from the identity", confirmed=True)
+    rows, cols, r0 = [], [], 0
+    for k, g in enumerate(S):
+        if g.dim == 0:
+            continue
+        shape, r, c = boundary_block(np, g, dim)
+        rows.append(r + r0)
+        cols.append(c + offF[k])
+        r0 += shape[0]
+        bg = mdg.subdomain_to_boundary_grid(g)
+        if not same(np, canon(np, bg.projection(dim)), canon_triplets(np, shape, r, c, np.ones(r.size))):
+            rep.violation("BoundaryGrid.projection: selects the domain-boundary faces in order", f"dim {dim}; {g.dim}-d grid", inputs=inputs,
+                          detail="per-grid projection differs from the tag-based selection", confirmed=True)
+    z = np.zeros(0, dtype=np.int64)
+    rows, cols = (np.concatenate(rows) if rows else z), (np.concatenate(cols) if cols else z)
+    E = canon_triplets(np, (r0, nF), rows, cols, np.ones(rows.size))
+    if not same(np, s2b, E):
+        rep.violation("BoundaryProjection.subdomain_to_boundary: per-grid blocks at face offsets", sig, inputs=inputs,
+                      detail=f"shape {s2b[0]} expected {E[0]}", confirmed=True)
+    if not same(np, b2s, transposed(np, E)):
+        rep.violation("BoundaryProjection.boundary_to_subdomain: transpose of subdomain_to_boundary", sig, inputs=inputs, detail=f"shape {b2s[0]} expected {(E[0][1], E[0][0])}", confirmed=True)
+    if s2b[0][1] == b2s[0][0]:
+        n = s2b[0][0]
+        if not same(np, canon(np, sps.csr_matrix(s2b_m) @ sps.csc_matrix(b2s_m)), canon_triplets(np, (n, n), np.arange(n), np.arange(n), np.ones(n))):
+            rep.violation("BoundaryProjection: subdomain_to_boundary @ boundary_to_subdomain = identity", sig, inputs=inputs, detail="product differs from the identity", confirmed=True)
 
 
 # ----------------------------------------------------------------------------- entry points
@@ -303,16 +399,19 @@ def run(rep):
     with rep.sweep(
         "SubdomainProjections",
         rule="for each md-grid (A, B, C, D) and dim in {1,2,3}: every ordered subset of the subdomains as constructor list x every ordered subset of it as argument "
-             "x {cell,face}_{prolongation,restriction}; matrix compared entrywise with the expected 0/1 matrix; non-trivial when the argument is non-empty; distinct "
-             "by (md-grid, dim, constructor list, argument list, method)",
+             "x {cell,face}_{prolongation,restriction} (quick tier: 3-element arguments of 4-element constructor lists and dim 2 on md-grid C are skipped); matrix "
+             "compared entrywise with the expected 0/1 matrix; non-trivial when the argument is non-empty; distinct by (md-grid, dim, constructor list, argument "
+             "list, method)",
         bound="md-grids with <= 4 subdomains; dim <= 3",
-        exhaustive=True,
+        exhaustive=not quick,
     ) as sw:
         for name, mdg in mdgs:
             subs = mdg.subdomains()
             for dim in dims:
+                if quick and name.startswith("C") and dim == 2:
+                    continue  # quick tier: the 3-d md-grid is swept for dim 1 and 3 only
                 for C in ordered_subsets(subs):
-                    check_subdomain_projections(pp, np, mdg, subs, C, dim, sw, rep, name)
+                    check_subdomain_projections(pp, np, mdg, subs, C, dim, sw, rep, name, quick)
 
     with rep.sweep(
         "BoundaryProjection",
@@ -331,8 +430,8 @@ def run(rep):
         "MortarProjections",
         rule="for each md-grid and dim in {1,2,3}: (subdomain list, interface list) pairs x the 8 projections, each compared with the per-interface blocks at "
              "the global offsets; thorough: full cross product of ordered subsets of subdomains and ordered subsets of interfaces of one co-dimension; quick: "
-             "every ordered subdomain subset x {all interfaces in md-grid order, reversed, 2 seeded permutations/subsets, empty} plus every interface list x "
-             "{all subdomains in md-grid order, reversed, one seeded subset}; non-trivial when both lists are non-empty",
+             "every ordered subdomain subset x all interfaces in md-grid order, plus all subdomains in md-grid order x every ordered interface subset, plus 25 "
+             "seeded (subdomain list, interface list) pairs; non-trivial when both lists are non-empty",
         bound="md-grids with <= 4 subdomains and <= 4 interfaces; dim <= 3",
         exhaustive=not quick,
     ) as sw:
@@ -342,11 +441,10 @@ def run(rep):
             J_all = interface_lists(intfs, rep.tier, rep.rng)
             for dim in dims:
                 if quick:
-                    full_J = [j for j in J_all if len(j) == max(len(x) for x in J_all)]
-                    J_sel = {(), full_J[0], full_J[-1]} | set(rep.rng.sample(J_all, min(2, len(J_all))))
                     n = len(subs)
-                    S_sel = {tuple(range(n)), tuple(range(n))[::-1], rep.rng.choice(S_all)}
-                    pairs = {(s, j) for s in S_all for j in J_sel} | {(s, j) for s in S_sel for j in J_all}
+                    full_J = max(J_all, key=lambda j: (len(j), [-x for x in j]))  # all interfaces of the largest co-dimension class, md-grid order
+                    pairs = {(s, full_J) for s in S_all} | {(tuple(range(n)), j) for j in J_all}
+                    pairs |= {(rep.rng.choice(S_all), rep.rng.choice(J_all)) for _ in range(25)}
                     pairs = sorted(pairs)
                 else:
                     pairs = [(s, j) for s in S_all for j in J_all]
